@@ -560,8 +560,7 @@ def generate(prop, seed, tier, weights, n_ops=(4, 14), n_incompat_max=2, with_dv
     # incompatibilities between options without forced conflicts. On other shapes the complete encoder's analysis and
     # the graph walk disagree in many rare ways (DESIGN.md 9.3); those are the subject of C02 / C06, not of the
     # history- and twin-based properties checked here.
-    spec = gen_dsg.gen_selection_spec(rng, n_incompat_max=rng.choice([0, 0, n_incompat_max + 1]),
-                                      p_cycle=0.0, p_shared=0.0, acyclic=True, tree_options=True)
+    spec = gen_dsg.gen_tree_spec(rng, n_incompat_max=rng.choice([0, 0, n_incompat_max + 1]))
     spec = gen_dsg.clean_incompat(spec)
     if with_dv:
         spec = gen_dsg.add_dv_metrics(rng, spec)
@@ -617,7 +616,7 @@ def shrink_candidates(trace):
 
 def shrink_spec(t):
     spec = t['spec']
-    for key in ('incompat', 'dv', 'metrics', 'sel', 'derive'):
+    for key in ('constraints', 'incompat', 'dv', 'metrics', 'sel', 'derive'):
         for i in range(len(spec.get(key, []))):
             c = copy.deepcopy(t)
             del c['spec'][key][i]
@@ -667,6 +666,14 @@ def spec_features(spec):
         f.append('dv')
     if spec.get('conn'):
         f.append('conn')
+    if spec.get('constraints'):
+        f.append('choice-constraint')
+    incs = {tuple(sorted(p)) for p in spec.get('incompat', [])}
+    if incs:
+        allopts = {o for c in spec['sel'] for o in c[2]}
+        if any(x not in c[2] and c[2] and all(tuple(sorted((x, o))) in incs for o in c[2])
+               for x in allopts for c in spec['sel']):
+            f.append('blocked-option')
     if len(spec['start']) > 1:
         f.append('multi-start')
     return f
